@@ -22,7 +22,8 @@
 (*        byte-identity claim, xrels : <<src, id>> of relationships an     *)
 (*        edit replaced by design]                                         *)
 (* An operation is a record [op |-> name, ...]; ch are the library's free  *)
-(* choices (fresh relationship id, fresh media name).                      *)
+(* choices (fresh relationship id, fresh media name, which paragraph an    *)
+(* index denotes).                                                         *)
 (***************************************************************************)
 EXTENDS Integers, Sequences, FiniteSets, TLC
 
@@ -267,8 +268,11 @@ LabelOfTok(body, t) ==
   IN IF hits = {} THEN "unknown"
      ELSE LET x == CHOOSE x \in hits : TRUE IN RunLabel(body[x[1]].blk, body[x[1]].runs[x[2]].c)
 
-\* top-level paragraphs of the body (what an index-based removal counts) and the rest
-IsParaBlk(bl) == bl.blk \in {"p", "pic"}
+\* Paragraphs an index-based removal may hit: the body's own paragraphs and - depending on whether a
+\* reader flattens block-level content controls - the paragraphs inside them. Which paragraph carries
+\* which index is the library's business (C08 decides index arithmetic); C04 only demands that a removal
+\* takes away at most one paragraph. Table cells are never reachable by a body-level removal.
+IsParaBlk(bl) == bl.blk \in {"p", "pic", "sdtblk"}
 ParasOf(body) == LET ps == SeqFilter(body, IsParaBlk) IN [i \in 1..Len(ps) |-> BlockToks(ps[i])]
 LooseOf(body) == UNION {BlockToks(body[b]) : b \in {x \in 1..Len(body) : ~IsParaBlk(body[x])}}
 
@@ -346,10 +350,11 @@ Apply(s, e, ch) ==
                            !.m = ApplyPkg(s.m, e, ch)] IN
        IF e.op \in ParaAppenders THEN [s1 EXCEPT !.paras = Append(s.paras, {})]
        ELSE IF e.op = "RemoveParagraphAt" THEN
-            IF e.i >= 0 /\ e.i < Len(s.paras) THEN [s1 EXCEPT !.paras = RemoveIdx(s.paras, e.i + 1)] ELSE s1
+            \* ch.rm = which paragraph the library removed (0 = none)
+            IF ch.rm >= 1 /\ ch.rm <= Len(s.paras) THEN [s1 EXCEPT !.paras = RemoveIdx(s.paras, ch.rm)] ELSE s1
        ELSE s1
 
-NoChoice == [id |-> "", name |-> ""]
+NoChoice == [id |-> "", name |-> "", rm |-> 0]
 ExpToks(s) == s.loose \cup UNION {s.paras[i] : i \in 1..Len(s.paras)}
 
 \* ---- observed package (what the independent reader projects) ------------------
